@@ -223,9 +223,38 @@ def AdmRun (cfg : Cfg) : List Nat → Arena → List Op → Prop
     StepFresh cfg (nbs.headD 0) a op ∧
       ∀ a1 o, exec cfg (nbs.headD 0) a op = .ok (a1, o) → AdmRun cfg nbs.tail a1 ops
 
+instance (a : Arena) (b newBase nc : Nat) : Decidable (Fresh a b newBase nc) :=
+  decidable_of_iff
+    (newBase ≠ 0 ∧ ((a.bufAt b).data.length ≤ nc ∧ newBase + nc ≤ 2 ^ 64) ∧
+      (∀ j, j < a.bufs.length → j ≠ b → (a.bufAt j).base = 0 ∨ newBase + nc ≤ (a.bufAt j).base ∨ (a.bufAt j).base + (a.bufAt j).cap ≤ newBase) ∧
+      (newBase = (a.bufAt b).base ∨ (a.bufAt b).base = 0 ∨ newBase + nc ≤ (a.bufAt b).base ∨ (a.bufAt b).base + (a.bufAt b).cap ≤ newBase))
+    ⟨fun ⟨h1, h2, h3, h4⟩ => ⟨h1, h2, h3, h4⟩, fun h => ⟨h.nonnull, h.fits, h.others, h.old⟩⟩
+
+instance (cfg : Cfg) (a : Arena) (b size : Nat) : Decidable (Grows cfg a b size) := by unfold Grows; exact inferInstance
+instance (cfg : Cfg) (nb : Nat) (a : Arena) (b size : Nat) : Decidable (AllocFresh cfg nb a b size) := by
+  unfold AllocFresh; exact inferInstance
+instance (cfg : Cfg) (nb : Nat) (a : Arena) (op : Op) : Decidable (StepFresh cfg nb a op) := by
+  unfold StepFresh
+  cases opAlloc op with
+  | none => exact inferInstance
+  | some p => exact inferInstance
+
+/-- executable form of `AdmRun` (sound: Lemmas/ArenaExec.lean `admRun_of_check`) -/
+def admCheck (cfg : Cfg) : List Nat → Arena → List Op → Bool
+  | _, _, [] => true
+  | nbs, a, op :: ops =>
+    decide (StepFresh cfg (nbs.headD 0) a op) &&
+      match exec cfg (nbs.headD 0) a op with
+      | .ok (a1, _) => admCheck cfg nbs.tail a1 ops
+      | .error _ => true
+
 instance (bufs : List Buf) (v : Nat) : Decidable (ValidPtr bufs v) := by unfold ValidPtr; exact inferInstance
 instance (b c : Buf) : Decidable (Apart b c) := by unfold Apart; exact inferInstance
 instance (r s : Ref) : Decidable (NoOverlap r s) := by unfold NoOverlap; exact inferInstance
+instance (bufs : List Buf) : Decidable (RangesOk bufs) :=
+  decidable_of_iff
+    ((∀ b ∈ bufs, b.data.length ≤ b.cap ∧ b.base + b.cap ≤ 2 ^ 64) ∧ (∀ b ∈ bufs, b.base = 0 → b.cap = 0) ∧ bufs.Pairwise Apart)
+    ⟨fun ⟨h1, h2, h3⟩ => ⟨h1, h2, h3⟩, fun h => ⟨h.fits, h.null, h.apart⟩⟩
 instance (a : Arena) (rs : List Ref) : Decidable (SlotsOk a rs) := by unfold SlotsOk; exact inferInstance
 
 /-- buffer `i` placed at address `f i` (unallocated buffers stay unallocated) -/
